@@ -585,6 +585,110 @@ def dup_stratum(ctx):
     shutil.rmtree(d, ignore_errors=True)
 
 
+# ----------------------------------------------------------------------------- file names of keys
+NAME_ALPHABET = ["a", "Z", "0", "9", "_", ".", "-", "~", "/", "\\", "%", " ", "'", '"', "\n", "\t", "\x00", "é", "α", "日",
+                 "🧪", ":", "*", "?", "+", "=", "&", "#", "(", ",", ")", "p", "2", "5", "F", "f"]
+NAME_SPECIALS = ["", "/", "..", ".", "%", "%25", "%2F", "a%2Fb", "a/b", "a\\b", "\x00", "\n", "ä", "🧪", "日本語", ".p", "x.p", "x.p.1.tmp",
+                 "~", "a~b", "x" * 300, "k" * 100 + "/" * 50, None, True, False, 0, 1, 1.0, -0.0, float("inf"), 10 ** 30, b"a/b", b"",
+                 (), (1,), (1, "1"), ("a/b", 2.5), ((1, 2), (3,)), frozenset(), frozenset({1})]
+_SPY_SEEN = []
+
+
+class _Spy:
+    """a payload that looks at the directory WHILE it is being pickled: that is when the temporary sibling exists"""
+
+    def __init__(self, d):
+        self.d = d
+
+    def __reduce__(self):
+        _SPY_SEEN.append(sorted(os.listdir(self.d)))
+        return (int, (0,))
+
+
+def hand_quote(text: str) -> str:
+    """percent-encoding written out by hand (oracle): UTF-8 bytes; ASCII letters, digits and _ . - ~ stay, every other
+    byte becomes %XX (upper-case hexadecimal)"""
+    keep = set(b"ABCDEFGHIJKLMNOPQRSTUVWXYZabcdefghijklmnopqrstuvwxyz0123456789_.-~")
+    return "".join(chr(b) if b in keep else "%" + "0123456789ABCDEF"[b // 16] + "0123456789ABCDEF"[b % 16] for b in text.encode("utf-8"))
+
+
+def names_stratum(ctx):
+    """`Cache().name_fn(key)` (R) vs the Lean `defaultName` under the generated scheme (M) vs a hand-written encoder (S),
+    byte for byte, over text with separators / percent signs / non-ASCII / control characters, numbers, tuples, bytes;
+    set-level: different keys never share a name, no name can leave the directory; and the REAL temporary name used by
+    `_pickle_save` (seen from inside the dump) vs the Lean `tmpName` with the generated constant parts."""
+    import re
+    from urllib.parse import unquote
+
+    from mxlpy.parallel import Cache
+    rng = ctx.rng
+    keys = [decode_key(ks) for ks in KEY_POOL] + list(NAME_SPECIALS)
+    for _ in range(ctx.n(300, 6000)):
+        keys.append("".join(rng.choice(NAME_ALPHABET) for _ in range(rng.choice([0, 1, 1, 2, 3, 5, 8, 12]))))
+    for _ in range(ctx.n(40, 600)):
+        keys.append(tuple(rng.choice([rng.choice(NAME_ALPHABET) * rng.randint(1, 3), rng.randint(-3, 3), rng.choice([0.5, 1e-3, 2.0])])
+                          for _ in range(rng.randint(1, 3))))
+    uniq, seen = [], set()
+    for k in keys:
+        ident = (type(k).__name__, repr(k))
+        if ident not in seen:
+            seen.add(ident)
+            uniq.append(k)
+    cache = Cache()
+    pid = os.getpid()
+    names = [cache.name_fn(k) for k in uniq]
+    Ms = [None] * len(uniq)
+    if ctx.driver_ok:
+        Ms = driver.call_batch([{"op": "c19", "name": {"str": list(str(k).encode("utf-8", "backslashreplace")),
+                                                      "repr": list(repr(k).encode("utf-8")), "pid": pid}} for k in uniq])
+    pat = re.compile(r"(?:%[0-9A-F]{2}|[A-Za-z0-9_.~-])*\.p")
+    hist = {}
+    for k, name, m in zip(uniq, names, Ms):
+        kind = type(k).__name__ + (":sep" if isinstance(k, str) and ("/" in k or "\\" in k) else "") + (
+            ":pct" if isinstance(k, str) and "%" in k else "") + (":nonascii" if isinstance(k, str) and not k.isascii() else "") + (
+            ":ctrl" if isinstance(k, str) and any(ord(c) < 32 for c in k) else "") + (":empty" if k == "" else "") + (
+            ":long" if len(name) > 255 else "")
+        hist[kind] = hist.get(kind, 0) + 1
+        case = {"name_of": repr(k), "type": type(k).__name__}
+        ctx.count(case, f"name:{kind}")
+        R = {"final": list(name.encode("utf-8")), "decodes_to_repr": unquote(name[:-2]) == repr(k), "alphabet": bool(pat.fullmatch(name))}
+        S = {"final": list((hand_quote(repr(k)) + ".p").encode()), "decodes_to_repr": True, "alphabet": True}
+        M = None if m is None else {"final": m["final"], "decodes_to_repr": bytes(m["decoded"]) == repr(k).encode("utf-8"),
+                                    "alphabet": bool(m["safe"]) and bool(m["partsOk"])}
+        ctx.judge(case, R, S, M, what="file name of a key: percent-encoded repr + '.p', byte for byte")
+    ctx.extra_cov["name_kinds"] = dict(sorted(hist.items()))
+    # set level: different keys, different names; nothing can leave the directory
+    clash = [(repr(a), repr(b)) for i, (a, na) in enumerate(zip(uniq, names)) for b, nb in zip(uniq[:i], names[:i]) if na == nb] \
+        if len(set(names)) != len(names) else []
+    case = {"name_set": len(uniq)}
+    ctx.count(case, "name:set-level")
+    ctx.judge(case, {"clashes": clash[:3], "unsafe": [n for n in names if "/" in n or "\0" in n or "\\" in n][:3]},
+              {"clashes": [], "unsafe": []}, None, what="different keys never share a file name; no name holds a separator")
+    # the temporary sibling, observed from inside pickle.dump
+    d = SCRATCH / f"names-{pid}"
+    shutil.rmtree(d, ignore_errors=True)
+    d.mkdir(parents=True)
+    finals = set(names)
+    short = [(k, n, m) for k, n, m in zip(uniq, names, Ms) if len(n) < 200]
+    rng.shuffle(short)
+    for k, name, m in short[: ctx.n(60, 600)]:
+        del _SPY_SEEN[:]
+        before = set(os.listdir(d))
+        cache.save_fn(d / name, _Spy(d))
+        during = set(_SPY_SEEN[0]) - before if _SPY_SEEN else set()
+        after = set(os.listdir(d))
+        tmp = sorted(during - {name})
+        case = {"tmp_name_of": repr(k)}
+        ctx.count(case, "name:tmp")
+        R = {"tmp": [list(t.encode("utf-8")) for t in tmp], "is_a_result_name": any(t in finals for t in tmp),
+             "safe": not any("/" in t or "\0" in t for t in tmp), "left_behind": sorted(after - before - {name}), "final_written": name in after}
+        S = {"tmp": R["tmp"] if len(tmp) == 1 else ["exactly one temporary expected"], "is_a_result_name": False, "safe": True,
+             "left_behind": [], "final_written": True}
+        M = None if m is None else {"tmp": [m["tmp"]], "is_a_result_name": False, "safe": bool(m["safe"]), "left_behind": [], "final_written": True}
+        ctx.judge(case, R, S, M, what="temporary sibling of a save: one file, not a result name, renamed away afterwards")
+    shutil.rmtree(d, ignore_errors=True)
+
+
 def _scan_stratum(ctx):
     import numpy as np
     import pandas as pd
@@ -673,6 +777,7 @@ def run(ctx):
             judge_case(ctx, c, R, M)
         scan_stratum(ctx)
         dup_stratum(ctx)
+        names_stratum(ctx)
     finally:
         shutil.rmtree(SCRATCH, ignore_errors=True)
     if not ctx.proof_ok or ctx.drift:
@@ -683,6 +788,12 @@ def replay(ctx, rp):
     case = rp["case"]
     if "scan" in case:
         scan_stratum(ctx)
+        return
+    if "name_of" in case or "tmp_name_of" in case or "name_set" in case:
+        names_stratum(ctx)
+        return
+    if "dup" in case:
+        dup_stratum(ctx)
         return
     case.setdefault("id", 0)
     Rs, Ms = evaluate(ctx, [case])
